@@ -59,6 +59,8 @@ def text_params(kbd, extra=0, slack=SLACK):
     p = {"sum": total, "red": red, "slack": slack}
     if extra:
         p["extra"] = extra
+    if re.search(r"\(dynamic-macro-record\s+\d", kbd):
+        p["rec"] = True       # a recording may be left switched on by the history: `idle` is not judged
     return p
 
 
@@ -119,7 +121,10 @@ def family(tier):
     add("oneshot_x_chordv1", "ab", "(defchords g 3 (a) x (b) (one-shot 3 lsft) (a b) (one-shot-release 2 lctl))\n"
                                    "(deflayer l0 (chord g a) (chord g b))", qmax=3, osbound=3)
     add("macro_x_relcancel", "ab", "(deflayer l0 (macro-release-cancel S-(x 1 y)) (macro-cancel-on-press C-(x 1 y)))",
-        qmax=2, seqbound=2)
+        qmax=2, seqbound=2, quick=False)
+    # the cancelling key must not itself clean up (a release-cancel key clears every macro-held key when released)
+    add("macro_relcancel", "ab", "(deflayer l0 (macro-release-cancel S-(x 1 y)) z)", qmax=2, seqbound=2)
+    add("macro_presscancel", "ab", "(deflayer l0 (macro-cancel-on-press C-(x 1 y)) z)", qmax=2, seqbound=2)
     add("tde_x_layer", "ab", "(deflayer l0 (tap-dance-eager 3 (x (layer-while-held l1) lsft)) y)\n"
                              "(deflayer l1 _ (multi lctl z))", qmax=3)
     add("oneshot_x_taphold", "ab", "(deflayer l0 (one-shot 3 lsft) (tap-hold 0 2 y lctl))", qmax=3, osbound=3, quick=False)
@@ -134,6 +139,8 @@ def family(tier):
     add("custom_x_taphold", "ab", "(deflayer l0 (multi mlft (tap-hold 0 3 x mrgt)) y)", qmax=2)
     add("custom_x_chordv1", "ab", "(defchords g 3 (a) mrgt (b) x (a b) mlft)\n(deflayer l0 (chord g a) (chord g b))",
         qmax=3, quick=False)
+    add("switch_trans_x_layer", "ab", "(deflayer l0 (layer-while-held l1) (switch () _ break))\n"
+                                      "(deflayer l1 _ (switch () _ break))", qmax=2, track_hist=False, quick=False)
     add("holdfor_x_oneshot", "ab", "(defvirtualkeys v (one-shot 2 lsft))\n(deflayer l0 (hold-for-duration 3 v) x)",
         qmax=3, osbound=3, quick=False)
     return F
@@ -379,8 +386,10 @@ def diagnose(job, script, wd):
     of the finding signature:
       macro ring       at the end a FakeKey state (a key pressed by a macro) is left while no macro cursor is active,
                        and the 4-slot ring of macro cursors was full at some moment of the run
+      livelock         input events are still in the layout queue after the whole quiet tail
       chords v2 held   no flood, and at the end a state is left on a chords-v2 virtual coordinate (y >= 768) or the
                        chords-v2 component never becomes idle: an activated chord was never released
+      chords v2 lost   no flood, defchordsv2 configured, states of physically released keys left on real coordinates
       chords v2 flood  the configuration has defchordsv2 and the history has more than 16 events between two ticks
       os repeat        the stuck keys were pressed at the OS by an OS-repeat event while kanata had them lifted
       twin customs     two Custom-action states created at the same coordinate were removed by one release
@@ -424,10 +433,17 @@ def diagnose(job, script, wd):
     run = max_run(script)
     if fk and last["nseq"] == 0 and max_nseq >= 4:
         return "macro ring: %d key(s) pressed by a macro left with no active macro after the 4-slot ring was full" % len(fk)
+    if last["q"]:
+        return ("livelock: input events are still queued at the end of the quiet tail (%d queued, action queue %d): "
+                "an action keeps re-queuing itself" % (len(last["q"]), last["naq"]))
     virt = [x for x in last["st"] if x[0] in ("nk", "lm", "cu", "rs") and x[2] == 0 and x[3] >= 768]
     if "(defchordsv2" in job["cfg"] and run <= 16 and (virt or not last.get("chv2i", True)):
         return ("chords v2: an activated chord is never released after all keys are up (states on virtual "
                 "coordinates: %s; chords v2 idle: %s)" % (json.dumps(virt[:3]), last.get("chv2i")))
+    real_left = [x for x in last["st"] if x[0] in ("nk", "lm", "cu", "rs") and x[2] == 0 and x[3] < 768]
+    if "(defchordsv2" in job["cfg"] and run <= 16 and real_left and not last["q"]:
+        return ("chords v2 configuration: states of released keys are left on real coordinates (a release event was "
+                "lost on the chords-v2 input path): %s" % json.dumps(real_left[:4]))
     if "(defchordsv2" in job["cfg"] and run > 16:
         return "chords v2 flood: more than 16 events between two ticks (%d)" % run
     if down and down <= rep_pressed:
